@@ -316,7 +316,7 @@ def vacancy_calculator(rng, maxkin=420):
 SPECIAL = (0., 0.5, 0.25, 0.75, 1 / 3, 2 / 3, 0.125, 0.375)
 
 
-def interstitial_calculator(rng, maxsites_cell=14, default_chemistry=False):
+def interstitial_calculator(rng, maxsites_cell=14, default_chemistry=False, permute_chem=False):
     """Random Interstitial calculator on a crystal with an added interstitial sublattice (1-2 Wyckoff orbits)."""
     from onsager import OnsagerCalc
     from vmon import gen
@@ -340,6 +340,16 @@ def interstitial_calculator(rng, maxsites_cell=14, default_chemistry=False):
         icrys = crys.addbasis(new) if default_chemistry else crys.addbasis(new, chemistry=['X'])
         chem = icrys.Nchem - 1
         if len(icrys.G) != len(crys.G): continue  # adding a complete orbit keeps the group
+        if permute_chem and not default_chemistry and rng.uniform() < 0.5:
+            # the interstitial species need not be the last chemistry index: same crystal with the species list rotated
+            from onsager import crystal as _crystal
+            k = int(rng.integers(icrys.Nchem))
+            order = list(range(icrys.Nchem))
+            order.insert(k, order.pop())
+            pcrys = _crystal.Crystal(icrys.lattice, [icrys.basis[c] for c in order], chemistry=[icrys.chemistry[c] for c in order],
+                                     noreduce=True)
+            if len(pcrys.G) == len(icrys.G) and pcrys.N == icrys.N:
+                icrys, chem = pcrys, k
         cutoff = shell_cutoff(icrys, chem, 1 if rng.uniform() < 0.6 else 2)
         jn = icrys.jumpnetwork(chem, cutoff)
         if not jn or sum(len(j) for j in jn) > 200: continue
